@@ -743,6 +743,20 @@ def check_execute_outcome(ck, rule):
         rer = hs and any(isinstance(st_, ast.Raise) and st_.exc is None for st_ in hs[0].ast.body)
         ck.require(bool(rer), rule, "%s: exception re-raised" % q.fn(fex), "bare raise in the handler",
                    "the task's exception is swallowed by execute (the worker cannot log it; callers see no failure)", q.loc(fex, n))
+        check_propagates(ck, rule, fex, g)
+
+
+def check_propagates(ck, rule, fi, g):
+    """A bare `raise` of a handler really leaves the function with the exception: no normal exit is reachable from it (a
+    `return` / `break` / `continue` in a finally clause that the exception passes through would discard it)."""
+    from vlib.flow import reachable_avoiding
+    for n in g.live_nodes():
+        if n.kind == "raise" and n.ast is not None and n.ast.exc is None:
+            reach = reachable_avoiding(g, n.id, set())
+            ck.require(g.return_exit.id not in reach, rule, "%s: the re-raised exception leaves the function" % q.fn(fi),
+                       "no normal exit after the re-raise",
+                       "after the `raise` in the handler a normal exit of %s is still reachable (a return / break / continue in a `finally` "
+                       "clause discards the exception in flight): the failure is swallowed" % fi.name, q.loc(fi, n))
 
 
 def base_exception_layers(prog):
@@ -992,6 +1006,17 @@ CLIENT_STATE = {
 _MUTATING = ("append", "extend", "insert", "update", "setdefault", "add", "pop", "popitem", "remove", "discard", "clear", "sort", "reverse")
 
 
+def _attr_read_anywhere(prog, attr):
+    for fi in prog.funcs.values():
+        for x in ast.walk(fi.node):
+            if isinstance(x, ast.Attribute) and x.attr == attr and isinstance(x.ctx, ast.Load):
+                return True
+            if isinstance(x, ast.Call) and isinstance(x.func, ast.Name) and x.func.id in ("getattr", "hasattr", "vars") and \
+                    (x.func.id == "vars" or (len(x.args) > 1 and isinstance(x.args[1], ast.Constant) and x.args[1].value == attr)):
+                return True
+    return False
+
+
 def check_client_state(ck, rule, classes=None):
     """No method of a client-side class (other than __init__) keeps data of one exchange on the long-lived object: every store
     `self.F = ...`, `self.F[k] = ...`, `self.F.G = ...` and every mutating call `self.F.append(...)` targets a field of the
@@ -1026,6 +1051,9 @@ def check_client_state(ck, rule, classes=None):
                         hits.append((f.value.attr, "call .%s()" % f.attr))
                 for (attr, how) in hits:
                     n3 += 1
+                    if attr not in allowed and how == "store" and not _attr_read_anywhere(prog, attr):
+                        ck.ok(rule, "%s: store self.%s" % (q.fn(fi), attr), "write-only field: nothing in the package reads it", q.loc(fi, n))
+                        continue
                     ck.require(attr in allowed, rule, "%s: store self.%s" % (q.fn(fi), attr), "allowed cross-call state",
                                "`%s` keeps per-call data on the long-lived %s object (%s of self.%s; allowed cross-call state: %s): a later call "
                                "can observe a previous response" % (q.stmt_text(n)[:50], cname, how, attr, sorted(allowed)), q.loc(fi, n))
